@@ -162,14 +162,14 @@ function one(r, o) {
       d = Object.getOwnPropertyDescriptor(o, key);
       r.push(d === undefined ? "none" : (typeof d.get === "function" || typeof d.set === "function") ? "acc" : "data");
     }
-    r.push(Object.keys(o).join(","));
+    r.push(Object.keys(o).join("."));
     s = [];
     for (q in o) { if (HOP.call(o, q)) s.push(q) }
-    r.push(s.join(","));
+    r.push(s.join("."));
     en = Object.entries(o);
     s = [];
     for (i = 0; i < en.length; i++) s.push(en[i][0] + "=" + str(en[i][1]));
-    r.push(s.join(","));
+    r.push(s.join("."));
     r.push(ids(Object.getPrototypeOf(o)));
     r.push(o instanceof F1);
     r.push(o instanceof F2);
@@ -196,7 +196,7 @@ function obs(st) {
     r.push(rd(x.k));
     r.push(rd(x.f));
     r.push(typeof x.m);
-    r.push(Object.keys(x).join(","));
+    r.push(Object.keys(x).join("."));
     y = new F2();
     r.push(ids(Object.getPrototypeOf(y)));
     r.push(y instanceof F1);
@@ -204,7 +204,7 @@ function obs(st) {
     r.push(typeof y.m);
     r.push(rd(y.g));
     r.push(rd(arr.a));
-    r.push(Object.keys(arr).join(","));
+    r.push(Object.keys(arr).join("."));
   } catch (ex) { while (r.length < base + %(glob)d) r.push("throw:" + ex.name) }
   return r;
 }
